@@ -991,6 +991,54 @@ static void eval_c18(const Plan &p, Verdict &v, Agg *agg) {
 }
 
 // ================================================================================================
+// Scenario: C10 steady state (streaming profile: auto-destroy, logging off, slots recycled with htp_connp_tx_freed)
+// ================================================================================================
+
+static void c10_steady_plan(Rng &rng, Plan &p) {
+    p.prop = "C10"; p.scenario = "steady";
+    p.cfg.set("wellformed", 1);
+    p.cfg.set("personality", (long) rng.below(10));
+    p.cfg.set("auto_destroy", 1); p.cfg.set("log_level", 0); p.cfg.set("disposal", 3);
+    p.cfg.set("cookies", 1); p.cfg.set("auth", 1); p.cfg.set("urlenc", 1); p.cfg.set("mpart", 1);
+    bool thorough = getenv("VERIF_TIER") && !strcmp(getenv("VERIF_TIER"), "thorough");
+    int n = thorough ? (rng.chance(1, 4) ? 10000 : 3000) : (rng.chance(1, 4) ? 1000 : 300);
+    // a small set of exchange templates, repeated cyclically: message sizes are periodic, so must the heap be
+    GenFeatures f; f.close_delim = false; f.max_body = 200; f.many_headers = false; f.interim100 = rng.coin();
+    int period = (int) rng.range(1, 8);
+    Script tmpl = random_script(rng, f, period, 0);
+    Script s;
+    for (int i = 0; i < n; i++) { s.req.push_back(tmpl.req[(size_t) (i % period)]); s.res.push_back(tmpl.res[(size_t) (i % period)]); }
+    p.conns.resize(1);
+    build_conn_from_script(rng, s, p.conns[0], false);
+    ConnPlan &cp = p.conns[0];
+    // bounded run-ahead: groups of g requests, then their g responses (memory legitimately holds the g transactions in flight)
+    int g = (int) rng.range(1, 4);
+    p.cfg.set("c10_group", g); p.cfg.set("c10_period", period);
+    size_t mean = (size_t) rng.range(8, 400);
+    auto emit = [&](int d, long a, long b) { long pos = a; while (pos < b) { long len = std::min<long>(b - pos, (long) rng.geom(mean)); Op op; op.kind = d ? 'S' : 'Q'; op.n = len; p.ops.push_back(op); pos += len; } };
+    for (size_t i = 0; i < cp.xchg.size(); i += (size_t) g) {
+        size_t e = std::min(cp.xchg.size(), i + (size_t) g);
+        emit(0, cp.xchg[i].req.a, cp.xchg[e - 1].req.b);
+        emit(1, cp.xchg[i].res.a, cp.xchg[e - 1].res.b);
+    }
+}
+
+static bool check_c10_steady(const Plan &p, const RunResult &r, std::string &oracle, std::string &detail) {
+    size_t n = r.live_after_tx.size();
+    size_t sent = p.conns[0].xchg.size();
+    if (n != sent) { oracle = "C10.steady.tx_count"; detail = strfmt("%zu exchanges, %zu TRANSACTION_COMPLETE", sent, n); return false; }
+    size_t lcm = (size_t) p.cfg.get("c10_period", 1) * (size_t) p.cfg.get("c10_group", 1);
+    size_t warm = std::max<size_t>(64, 4 * lcm);
+    if (n < warm * 2) return true;
+    int64_t base = 0; for (size_t i = 8; i < warm; i++) base = std::max(base, r.live_after_tx[i]);
+    for (size_t i = warm; i < n; i++) if (r.live_after_tx[i] > base + 4096) {
+        oracle = "C10.steady.heap_grows_with_transactions"; detail = strfmt("live heap after tx %zu: %lld bytes; maximum over the warm-up (tx 8..%zu): %lld bytes", i, (long long) r.live_after_tx[i], warm, (long long) base); return false;
+    }
+    if (r.conns[0].final_tx_list_size > 64) { oracle = "C10.steady.transaction_list_grows"; detail = strfmt("list holds %ld slots after %zu transactions", r.conns[0].final_tx_list_size, n); return false; }
+    return true;
+}
+
+// ================================================================================================
 // Scenario: C11 ambiguity indicators (trigger applied by the actor => flag must be set)
 // ================================================================================================
 
@@ -1272,7 +1320,8 @@ bool generate_plan(const std::string &prop, uint64_t seed, Plan &out) {
     out = Plan();
     out.seed = seed;
     Rng rng(seed);
-    if (prop == "C01" || prop == "C05" || prop == "C09" || prop == "C10") chaos_plan(rng, out, prop);
+    if (prop == "C10" && (seed % 16) == 5) c10_steady_plan(rng, out);
+    else if (prop == "C01" || prop == "C05" || prop == "C09" || prop == "C10") chaos_plan(rng, out, prop);
     else if (prop == "C03") c03_plan(rng, out, seed);
     else if (prop == "C02" || prop == "C04" || prop == "C06") wf_plan(rng, out, prop);
     else if (prop == "C11") c11_plan(rng, out, seed);
@@ -1321,6 +1370,11 @@ Verdict evaluate_plan(const Plan &p, Agg *agg) {
     if (prop == "C01" || prop == "C05" || prop == "C09" || prop == "C10") {
         RunResult r; execute_plan(p, r); note_run(r, p, v, agg);
         first_violation_of(r, prop, v);
+        if (!v.violated && prop == "C10" && p.scenario.compare(0, 6, "steady") == 0) {
+            first_violation_of(r, "C01", v); if (v.violated) { v.oracle = "C10.via." + v.oracle; return v; }
+            std::string o, d; if (!check_c10_steady(p, r, o, d)) { v.violated = true; v.oracle = o; v.detail = d; }
+            if (agg) { agg->inc("c10.steady_runs"); agg->inc("c10.steady_transactions", r.live_after_tx.size()); }
+        }
         return v;
     }
     if (prop == "C03") {
